@@ -303,7 +303,10 @@ pub fn run(em: &mut Emit, thorough: bool, seed: u64) {
     }
     for (s, st) in [("has(m)", 4usize), ("has(\nm)", 5), ("has(\n  m)", 7), ("has(\r\nm)", 6), ("'ééé' +\nhas(m)", 15), ("'ééé' + has(1)", 15),
                     ("x.all(1, true)", 6), ("x.map(\n'é', 1)", 7), ("x.\nfilter(\n\n2u,\n1)", 12), ("'''a\nb''' + has(\nm)", 17),
-                    ("has(\nm)\n", 5), ("\nhas(m)", 5)] {
+                    ("has(\nm)\n", 5), ("\nhas(m)", 5),
+                    // several CR LF line ends before the error, the argument at the very end of the last line
+                    ("\r\n\r\n\r\nhas(1)", 10), ("1 +\r\n2 +\r\nhas(1)", 14), ("x\r\n.\r\nall(1, true)", 10), ("\r\n\r\n\r\n\r\n\r\n\r\nhas(m)", 16),
+                    ("'é' +\r\n'é' +\r\nhas(2)", 20), ("\r\r\nhas(1)", 7), ("\n\r\n\nhas(1)", 8)] {
         emit_src(em, s, "nt=1;kind=corpus-macro-pos");
         emit_macro_pos(em, s, st, "corpus-macro-pos");
     }
